@@ -1525,6 +1525,10 @@ class Norm:
         if f == ("g", "builtin:list") and len(args) == 1 and not kwargs and ((args[0][0] == "new" and args[0][1] == "list") or args[0][0] == "list"
                                                                             or (args[0][0] == "comp" and args[0][1] == "list")):
             return args[0]          # a copy of a list that was just built is, as a value, that list
+        if f == ("g", "builtin:list") and len(args) == 1 and not kwargs and args[0][0] == "tuple":
+            return ("list", args[0][1])          # the list of a tuple display is the list display of its elements
+        if f == ("g", "builtin:tuple") and len(args) == 1 and not kwargs and args[0][0] == "list":
+            return ("tuple", args[0][1])
         if f == ("g", "builtin:tuple") and len(args) == 1 and not kwargs and args[0][0] == "comp" and args[0][1] == "list":
             return args[0]          # the same elements in the same order (sequences are compared by content here)
         t = self.mk_call(f, args, kwargs, scope)
